@@ -7,94 +7,172 @@ From SV Require Import Text G_codes C05_Model C05_Lemmas C13_Model C13_Rx C13_Le
 Local Open Scope Z_scope.
 
 (* ================================================================== the rewriting: text level = tree level *)
-(* the text-level rewriting with the knowledge whether the character that follows the text is a letter or "." *)
-Fixpoint rwn (g : str) (s : str) (nx : bool) : str :=
-  match s with
-  | [] => []
-  | c :: r => c :: (if wordch c && (match r with n :: _ => wordch n | [] => nx end) then gapstr g else []) ++ rwn g r nx
+(* the units of the text of a tree *)
+Fixpoint toks (r : rx) : list str :=
+  match r with
+  | XChr c => [[c]]
+  | XDot => [[cdot]]
+  | XCls neg cs => [show_cls neg cs]
+  | XCat a b => toks a ++ toks b
+  | XAlt a b => toks a ++ [cbar] :: toks b
+  | XStar a => toks a ++ [["*"%byte]]
+  | XPlus a => toks a ++ [["+"%byte]]
+  | XOpt a => toks a ++ [["?"%byte]]
+  | XGrp cap a => ["("%byte] :: (if cap then [] else [["?"%byte]; [":"%byte]]) ++ toks a ++ [[")"%byte]]
   end.
-Definition hdp (s : str) (nx : bool) : bool := match s with n :: _ => wordch n | [] => nx end.
 
-Lemma rw_rwn g s : rw g s = rwn g s false.
+Lemma toks_len r : (length (toks r) <= length (show r))%nat.
 Proof.
-  induction s as [|c r IH]; [reflexivity|]. cbn [rw rwn]. rewrite IH. destruct r as [|n r']; [|reflexivity].
-  rewrite andb_false_r. reflexivity.
+  induction r; cbn [toks show]; rewrite ?app_length; cbn [length]; rewrite ?app_length; cbn [length]; try lia.
+  - unfold show_cls. cbn [length]. lia.
+  - destruct cap; cbn [app length]; rewrite ?app_length; cbn [length]; lia.
 Qed.
 
-Lemma rwn_app g a : forall b nx, rwn g (a ++ b) nx = rwn g a (hdp b nx) ++ rwn g b nx.
+Lemma units_nil fuel : units fuel [] = [].
+Proof. destruct fuel; reflexivity. Qed.
+Lemma units_char fuel c rest : byte_eqb c cbo = false -> (S (length rest) <= fuel)%nat ->
+  units fuel (c :: rest) = [c] :: units (fuel - 1) rest.
+Proof. intros Hc Hf. destruct fuel as [|f]; [lia|]. cbn [units]. rewrite Hc. cbn. now rewrite Nat.sub_0_r. Qed.
+
+Lemma cls_char_facts c : cls_char_ok c = true -> byte_eqb c cbc = false /\ byte_eqb c chat = false.
+Proof. destruct c; intros H; try discriminate H; split; reflexivity. Qed.
+Lemma lit_not_bo c : lit_ok c = true -> byte_eqb c cbo = false.
+Proof. destruct c; intros H; try discriminate H; reflexivity. Qed.
+
+Lemma to_close_cs cs rest : forallb cls_char_ok cs = true -> to_close (cs ++ cbc :: rest) = Some (cs ++ [cbc], rest).
 Proof.
-  induction a as [|c a IH]; intros b nx; [reflexivity|].
-  cbn [app rwn]. rewrite IH. destruct a as [|n a']; cbn [app]; rewrite <- ?app_assoc; cbn [app]; reflexivity.
+  induction cs as [|x cs IH]; intros H; [reflexivity|]. cbn [forallb] in H. apply andb_prop in H. destruct H as [Hx H].
+  cbn [app to_close]. rewrite (proj1 (cls_char_facts x Hx)). now rewrite IH.
+Qed.
+Lemma class_unit_cls (neg : bool) cs rest : cls_ok cs = true ->
+  class_unit ((if neg then [chat] else []) ++ cs ++ cbc :: rest) = Some ((if neg then [chat] else []) ++ cs ++ [cbc], rest).
+Proof.
+  intros H. destruct cs as [|x r]; [discriminate|]. unfold cls_ok in H. apply andb_prop in H. destruct H as [H _].
+  pose proof H as H'. cbn [forallb] in H'. apply andb_prop in H'. destruct H' as [Hx _].
+  destruct (cls_char_facts x Hx) as [Hc Hh].
+  destruct neg; unfold class_unit; cbn [app].
+  - replace (byte_eqb chat chat) with true by reflexivity. rewrite Hc.
+    change (x :: r ++ cbc :: rest) with ((x :: r) ++ cbc :: rest). now rewrite to_close_cs.
+  - rewrite Hh, Hc. change (x :: r ++ cbc :: rest) with ((x :: r) ++ cbc :: rest). now rewrite to_close_cs.
 Qed.
 
-Lemma rwn_cons_nonplain g c s nx : wordch c = false -> rwn g (c :: s) nx = c :: rwn g s nx.
-Proof. intros H. cbn [rwn]. rewrite H. reflexivity. Qed.
+Ltac fin_units := repeat (f_equal; try (rewrite ?app_length; cbn [length]; lia)).
+Lemma units_show r : forall rest fuel, rx_ok r = true -> (length (show r) + length rest <= fuel)%nat ->
+  units fuel (show r ++ rest) = toks r ++ units (fuel - length (toks r)) rest.
+Proof.
+  induction r; intros rest fuel Hok Hf; cbn [show toks rx_ok] in *.
+  - cbn [app length] in *. now rewrite units_char by (try apply lit_not_bo; auto; lia).
+  - cbn [app length] in *. now rewrite units_char by (try reflexivity; lia).
+  - unfold show_cls in *. cbn [app length] in *. rewrite <- !app_assoc. cbn [app].
+    destruct fuel as [|f]; [lia|]. cbn [units]. replace (byte_eqb cbo cbo) with true by reflexivity.
+    rewrite class_unit_cls by exact Hok. cbn [app length]. replace (S f - 1)%nat with f by lia. reflexivity.
+  - apply andb_prop in Hok. destruct Hok as [Hok _]. apply andb_prop in Hok. destruct Hok as [Hok _].
+    apply andb_prop in Hok. destruct Hok as [Hok1 Hok2].
+    rewrite app_length in Hf. pose proof (toks_len r1). pose proof (toks_len r2).
+    rewrite <- app_assoc. rewrite IHr1 by (auto; rewrite app_length; lia). rewrite IHr2 by (auto; lia).
+    rewrite <- app_assoc. fin_units.
+  - apply andb_prop in Hok. destruct Hok as [Hok1 Hok2].
+    rewrite app_length in Hf. cbn [length] in Hf. pose proof (toks_len r1). pose proof (toks_len r2).
+    rewrite <- app_assoc. cbn [app]. rewrite IHr1 by (auto; cbn [length]; rewrite app_length; lia).
+    rewrite units_char by (try reflexivity; rewrite app_length; lia). rewrite IHr2 by (auto; lia).
+    rewrite <- app_assoc. cbn [app]. fin_units.
+  - apply andb_prop in Hok. destruct Hok as [Hok _]. apply andb_prop in Hok. destruct Hok as [Hok _].
+    rewrite app_length in Hf. cbn [length] in Hf. pose proof (toks_len r).
+    rewrite <- app_assoc. cbn [app]. rewrite IHr by (auto; cbn [length]; lia).
+    rewrite units_char by (try reflexivity; lia). rewrite <- app_assoc. cbn [app]. fin_units.
+  - apply andb_prop in Hok. destruct Hok as [Hok _]. apply andb_prop in Hok. destruct Hok as [Hok _].
+    rewrite app_length in Hf. cbn [length] in Hf. pose proof (toks_len r).
+    rewrite <- app_assoc. cbn [app]. rewrite IHr by (auto; cbn [length]; lia).
+    rewrite units_char by (try reflexivity; lia). rewrite <- app_assoc. cbn [app]. fin_units.
+  - apply andb_prop in Hok. destruct Hok as [Hok _]. apply andb_prop in Hok. destruct Hok as [Hok _].
+    rewrite app_length in Hf. cbn [length] in Hf. pose proof (toks_len r).
+    rewrite <- app_assoc. cbn [app]. rewrite IHr by (auto; cbn [length]; lia).
+    rewrite units_char by (try reflexivity; lia). rewrite <- app_assoc. cbn [app]. fin_units.
+  - pose proof (toks_len r). destruct cap; cbn [app length] in *; rewrite ?app_length in Hf; cbn [length] in Hf.
+    + rewrite units_char by (try reflexivity; rewrite !app_length; cbn [length]; rewrite ?app_length; cbn [length]; lia).
+      rewrite <- app_assoc. cbn [app]. rewrite IHr by (auto; cbn [length]; lia).
+      rewrite units_char by (try reflexivity; lia). rewrite <- app_assoc. cbn [app]. fin_units.
+    + rewrite ?app_length in Hf. cbn [length] in Hf.
+      rewrite units_char by (try reflexivity; cbn [length]; rewrite !app_length; cbn [length]; rewrite ?app_length; cbn [length]; lia).
+      rewrite units_char by (try reflexivity; cbn [length]; rewrite !app_length; cbn [length]; rewrite ?app_length; cbn [length]; lia).
+      rewrite units_char by (try reflexivity; rewrite !app_length; cbn [length]; rewrite ?app_length; cbn [length]; lia).
+      rewrite <- app_assoc. cbn [app]. rewrite IHr by (auto; cbn [length]; lia).
+      rewrite units_char by (try reflexivity; lia). rewrite <- app_assoc. cbn [app]. fin_units.
+Qed.
 
-Lemma show_nonempty r : show r <> [].
+(* joining with the knowledge whether the unit that follows is a letter unit *)
+Fixpoint joinn (g : str) (us : list str) (nx : bool) : str :=
+  match us with
+  | [] => []
+  | u :: r => u ++ (if isletter u && (match r with n :: _ => isletter n | [] => nx end) then gapstr g else []) ++ joinn g r nx
+  end.
+Definition hdl (us : list str) (nx : bool) : bool := match us with n :: _ => isletter n | [] => nx end.
+
+Lemma join_joinn g us : join_units g us = joinn g us false.
+Proof.
+  induction us as [|u r IH]; [reflexivity|]. cbn [join_units joinn]. rewrite IH. destruct r as [|n r']; [|reflexivity].
+  now rewrite andb_false_r.
+Qed.
+Lemma joinn_app g a : forall b nx, joinn g (a ++ b) nx = joinn g a (hdl b nx) ++ joinn g b nx.
+Proof.
+  induction a as [|u a IH]; intros b nx; [reflexivity|].
+  cbn [app joinn]. rewrite IH. destruct a as [|n a']; cbn [app]; rewrite <- ?app_assoc; cbn [app]; reflexivity.
+Qed.
+Lemma joinn_cons_nonletter g u r nx : isletter u = false -> joinn g (u :: r) nx = u ++ joinn g r nx.
+Proof. intros H. cbn [joinn]. rewrite H. reflexivity. Qed.
+Lemma toks_nonempty r : toks r <> [].
 Proof.
   induction r; cbn; try discriminate; try (intros H; apply app_eq_nil in H; destruct H as [H _]; contradiction).
 Qed.
-
-Lemma hdp_app s t nx nx' : s <> [] -> hdp (s ++ t) nx = hdp s nx'.
-Proof. destruct s; [contradiction|reflexivity]. Qed.
-
-Lemma first_plain_spec r : forall nx, hdp (show r) nx = first_plain r.
+Lemma hdl_app a b nx nx' : a <> [] -> hdl (a ++ b) nx = hdl a nx'.
+Proof. destruct a; [contradiction|reflexivity]. Qed.
+Lemma isletter_cls neg cs : isletter (show_cls neg cs) = true.
+Proof. unfold show_cls. destruct neg; [reflexivity|]. destruct cs; reflexivity. Qed.
+Lemma first_plain_spec r : forall nx, hdl (toks r) nx = first_plain r.
 Proof.
-  induction r; intros nx; cbn [show first_plain]; try reflexivity.
-  - rewrite (hdp_app _ _ nx nx (show_nonempty r1)). apply IHr1.
-  - rewrite (hdp_app _ _ nx nx (show_nonempty r1)). apply IHr1.
-  - rewrite (hdp_app _ _ nx nx (show_nonempty r)). apply IHr.
-  - rewrite (hdp_app _ _ nx nx (show_nonempty r)). apply IHr.
-  - rewrite (hdp_app _ _ nx nx (show_nonempty r)). apply IHr.
-Qed.
-
-Lemma rwn_noadj_snoc g x nx : wordch x = false -> forall s, noadj (s ++ [x]) = true -> rwn g (s ++ [x]) nx = s ++ [x].
-Proof.
-  intros Hx. induction s as [|c s IH]; intros H.
-  - cbn. rewrite Hx. reflexivity.
-  - cbn [app] in *. cbn [noadj] in H. cbn [rwn].
-    destruct (s ++ [x]) as [|n t] eqn:E; [destruct s; discriminate|].
-    apply andb_prop in H. destruct H as [H1 H2]. apply negb_true_iff in H1. rewrite H1. cbn [app].
-    rewrite IH; [reflexivity|exact H2].
+  induction r; intros nx; cbn [toks first_plain]; try reflexivity.
+  - cbn [hdl]. apply isletter_cls.
+  - rewrite (hdl_app _ _ nx nx (toks_nonempty r1)). apply IHr1.
+  - rewrite (hdl_app _ _ nx nx (toks_nonempty r1)). apply IHr1.
+  - rewrite (hdl_app _ _ nx nx (toks_nonempty r)). apply IHr.
+  - rewrite (hdl_app _ _ nx nx (toks_nonempty r)). apply IHr.
+  - rewrite (hdl_app _ _ nx nx (toks_nonempty r)). apply IHr.
 Qed.
 
 Lemma show_filler g : show (filler g) = gapstr g.
 Proof. unfold filler, gapstr. cbn. rewrite <- app_assoc. reflexivity. Qed.
 
-Lemma rwn_show g r : forall nx, cls_gap_ok r = true ->
-  rwn g (show r) nx = show (gapify g r) ++ (if last_plain r && nx then gapstr g else []).
+Lemma joinn_toks g r : forall nx,
+  joinn g (toks r) nx = show (gapify g r) ++ (if last_plain r && nx then gapstr g else []).
 Proof.
-  induction r; intros nx Hc; cbn [show gapify last_plain cls_gap_ok] in *.
-  - cbn [rwn]. rewrite app_nil_r. reflexivity.
-  - cbn [rwn]. rewrite app_nil_r. reflexivity.
-  - rewrite app_nil_r. unfold show_cls in *.
-    replace ("["%byte :: (if neg then ["^"%byte] else []) ++ cs ++ ["]"%byte])
-      with (("["%byte :: (if neg then ["^"%byte] else []) ++ cs) ++ ["]"%byte]) in * by (cbn; rewrite <- app_assoc; reflexivity).
-    apply rwn_noadj_snoc; [reflexivity|exact Hc].
-  - apply andb_prop in Hc. destruct Hc as [Hc1 Hc2].
-    rewrite rwn_app, first_plain_spec, IHr1, IHr2 by assumption.
+  induction r; intros nx; cbn [toks show gapify last_plain].
+  - cbn [joinn isletter app]. now rewrite app_nil_r.
+  - cbn [joinn isletter app]. now rewrite app_nil_r.
+  - cbn [joinn]. rewrite isletter_cls. cbn [andb]. now rewrite app_nil_r.
+  - rewrite joinn_app, first_plain_spec, IHr1, IHr2.
     destruct (last_plain r1 && first_plain r2); cbn [show]; rewrite ?show_filler, <- ?app_assoc; cbn [app]; reflexivity.
-  - apply andb_prop in Hc. destruct Hc as [Hc1 Hc2].
-    rewrite rwn_app. cbn [hdp]. replace (wordch cbar) with false by reflexivity.
-    rewrite IHr1 by assumption. rewrite andb_false_r, app_nil_r.
-    rewrite rwn_cons_nonplain by reflexivity. rewrite IHr2 by assumption.
-    rewrite <- app_assoc. reflexivity.
-  - rewrite rwn_app. cbn [hdp]. replace (wordch "*"%byte) with false by reflexivity.
-    rewrite IHr by assumption. rewrite andb_false_r, !app_nil_r. rewrite rwn_cons_nonplain by reflexivity. reflexivity.
-  - rewrite rwn_app. cbn [hdp]. replace (wordch "+"%byte) with false by reflexivity.
-    rewrite IHr by assumption. rewrite andb_false_r, !app_nil_r. rewrite rwn_cons_nonplain by reflexivity. reflexivity.
-  - rewrite rwn_app. cbn [hdp]. replace (wordch "?"%byte) with false by reflexivity.
-    rewrite IHr by assumption. rewrite andb_false_r, !app_nil_r. rewrite rwn_cons_nonplain by reflexivity. reflexivity.
+  - rewrite joinn_app. cbn [hdl]. replace (isletter [cbar]) with false by reflexivity.
+    rewrite IHr1. rewrite andb_false_r, app_nil_r.
+    rewrite joinn_cons_nonletter by reflexivity. rewrite IHr2. rewrite <- app_assoc. reflexivity.
+  - rewrite joinn_app. cbn [hdl]. replace (isletter ["*"%byte]) with false by reflexivity.
+    rewrite IHr. rewrite andb_false_r, !app_nil_r. rewrite joinn_cons_nonletter by reflexivity. reflexivity.
+  - rewrite joinn_app. cbn [hdl]. replace (isletter ["+"%byte]) with false by reflexivity.
+    rewrite IHr. rewrite andb_false_r, !app_nil_r. rewrite joinn_cons_nonletter by reflexivity. reflexivity.
+  - rewrite joinn_app. cbn [hdl]. replace (isletter ["?"%byte]) with false by reflexivity.
+    rewrite IHr. rewrite andb_false_r, !app_nil_r. rewrite joinn_cons_nonletter by reflexivity. reflexivity.
   - rewrite app_nil_r. destruct cap; cbn [app].
-    + rewrite rwn_cons_nonplain by reflexivity. rewrite rwn_app. cbn [hdp]. replace (wordch ")"%byte) with false by reflexivity.
-      rewrite IHr by assumption. rewrite andb_false_r, app_nil_r. rewrite rwn_cons_nonplain by reflexivity. reflexivity.
-    + rewrite !rwn_cons_nonplain by reflexivity. rewrite rwn_app. cbn [hdp]. replace (wordch ")"%byte) with false by reflexivity.
-      rewrite IHr by assumption. rewrite andb_false_r, app_nil_r. rewrite rwn_cons_nonplain by reflexivity. reflexivity.
+    + rewrite joinn_cons_nonletter by reflexivity. rewrite joinn_app. cbn [hdl]. replace (isletter [")"%byte]) with false by reflexivity.
+      rewrite IHr. rewrite andb_false_r, app_nil_r. rewrite joinn_cons_nonletter by reflexivity. reflexivity.
+    + rewrite !joinn_cons_nonletter by reflexivity. rewrite joinn_app. cbn [hdl]. replace (isletter [")"%byte]) with false by reflexivity.
+      rewrite IHr. rewrite andb_false_r, app_nil_r. rewrite joinn_cons_nonletter by reflexivity. reflexivity.
 Qed.
 
-(* cane.py:217-222 applied to the text of a tree is the text of the rewritten tree *)
-Lemma rw_show_gapify g r : cls_gap_ok r = true -> rw g (show r) = show (gapify g r).
-Proof. intros H. rewrite rw_rwn, rwn_show by exact H. rewrite andb_false_r, app_nil_r. reflexivity. Qed.
+(* cane.py:217-223 applied to the text of a tree is the text of the rewritten tree *)
+Lemma rw_show_gapify g r : rx_ok r = true -> rw g (show r) = show (gapify g r).
+Proof.
+  intros H. unfold rw. rewrite <- (app_nil_r (show r)) at 2. rewrite units_show by (auto; cbn [length]; lia).
+  rewrite units_nil, app_nil_r, join_joinn, joinn_toks. now rewrite andb_false_r, app_nil_r.
+Qed.
 
 (* ================================================================== matcher soundness *)
 Lemma firstn_add {A} (l : list A) : forall a b, firstn (a + b) l = firstn a l ++ firstn b (skipn a l).
